@@ -189,3 +189,4 @@ def free_syms_of_variant(it, env, v):
     for path, t in D.reachable_cells(it, env, v.obj):
         out |= free_syms(t)
     return out
+
